@@ -275,7 +275,7 @@ func c17Gen(rng *gen.Rng, population string) *c17Hist {
 			burst--
 			p = burstPath
 		}
-		render := rng.Pick([]string{"top", "direct", "direct", "direct", "funcparam", "funcglobal", "funcdirect", "if", "ifdirect", "for", "fordirect", "shared", "shared"})
+		render := rng.Pick([]string{"top", "direct", "direct", "direct", "funcparam", "funcglobal", "funcdirect", "nested", "nested", "if", "ifdirect", "for", "fordirect", "shared", "shared"})
 		if inBurst {
 			render = rng.Pick([]string{"direct", "direct", "top"})
 		}
@@ -457,11 +457,28 @@ func (h *c17Hist) render(seed uint64) []*c17Segment {
 	segs := []*c17Segment{}
 	cur := &c17Segment{Seeds: map[string]string{}}
 	var sb strings.Builder
+	// identifier naming: 35 % of the histories draw every generated identifier from an
+	// adversarial theme (collision families, case twins, helper look-alikes, shell words)
+	advNames := rng.Chance(35)
+	// ordinary-looking names only: families that collide once a prefix and a name are
+	// glued together, and names that differ only in case. Helper look-alikes (_h0 …) and
+	// names of commands the emitted script itself calls are left out on purpose: the
+	// property quantifies over paths, contents and histories, not over identifiers that
+	// capture the emitter's own names.
+	themes := [][]string{
+		{"log", "log_file", "file_path", "path", "file", "log_file_path", "a_b", "a", "b_c", "a_b_c", "b", "c", "x_", "x__y", "y", "k_", "log_path", "file_log", "f", "f_p", "p_f", "out", "out_file", "file_name", "name"},
+		{"index", "iNDEX", "inDex", "value", "vALUE", "valuE", "data", "dATA", "daTa", "name", "nAME", "naMe", "item", "iTEM"},
+	}
+	theme := themes[rng.Intn(len(themes))]
+	nameMap := map[string]string{}
 	usesShared := false
-	const sharedDefs = "func shw(p string, s string, a bool) {\nwrite(p, s, a)\n}\nfunc shw2(p string, s string) {\nwrite(p, s)\n}\nfunc shr(p string) string {\nx := read(p)\nreturn x\n}\nfunc she(p string) bool {\nreturn exists(p)\n}\n"
+	const sharedDefs = "func shw(shp string, shs string, sha bool) {\nwrite(shp, shs, sha)\n}\nfunc shw2(shp string, shs string) {\nwrite(shp, shs)\n}\nfunc shr(shp string) string {\nshx := read(shp)\nreturn shx\n}\nfunc she(shp string) bool {\nreturn exists(shp)\n}\n"
 	flush := func() {
 		fmt.Fprintf(&sb, "print(\"<<END>>\")\n")
 		cur.Program = sb.String()
+		if advNames {
+			cur.Program = renameIdentifiers(cur.Program, nameMap, theme, rng)
+		}
 		if usesShared {
 			// one set of functions used by many operations of this script
 			cur.Program = sharedDefs + cur.Program
@@ -514,6 +531,40 @@ func (h *c17Hist) render(seed uint64) []*c17Segment {
 			return body
 		}
 		switch render {
+		case "nested":
+			// the operation happens in a function AFTER it called another function that has
+			// local variables of its own (name handling across nested calls)
+			ps, as := []string{}, []string{}
+			for _, p := range params {
+				ps = append(ps, p[0]+" "+"string")
+				as = append(as, p[1])
+			}
+			if advNames && rng.Chance(60) && len(params) > 0 {
+				// split-point family: callee "t1_t2" with local "t3", caller "t1" with parameter
+				// "t2_t3" (and the other way round): any scheme that glues a function name and a
+				// variable name with "_" maps both to the same script variable
+				words := []string{"log", "file", "path", "out", "name", "tmp", "data", "item", "cfg", "key"}
+				t1, t2, t3 := words[rng.Intn(len(words))], words[rng.Intn(len(words))], words[rng.Intn(len(words))]
+				sfx := fmt.Sprint(id)
+				inner, innerVar, outer, outerVar := t1+"_"+t2+sfx, t3, t1, t2+sfx+"_"+t3
+				if rng.Chance(50) {
+					inner, innerVar, outer, outerVar = t1, t2+sfx+"_"+t3, t1+"_"+t2+sfx, t3
+				}
+				taken := false
+				for _, v := range nameMap {
+					if v == inner || v == outer || v == innerVar || v == outerVar {
+						taken = true
+					}
+				}
+				if !taken && inner != outer {
+					nameMap[fmt.Sprintf("fi%d", id)] = inner
+					nameMap[fmt.Sprintf("v%d", id)] = innerVar
+					nameMap[fmt.Sprintf("fn%d", id)] = outer
+					nameMap[params[0][0]] = outerVar
+				}
+			}
+			return fmt.Sprintf("func fi%d(q%d string) string {\nv%d := q%d + \"!\"\nw%d := v%d\nreturn w%d\n}\nfunc fn%d(%s) {\nu%d := fi%d(\"k\")\n%sprint(\"<<N>>\" + u%d)\n}\nfn%d(%s)\n",
+				id, id, id, id, id, id, id, id, strings.Join(ps, ", "), id, id, body, id, id, strings.Join(as, ", "))
 		case "funcparam":
 			ps, as := []string{}, []string{}
 			for _, p := range params {
@@ -1106,4 +1157,76 @@ func replayC17(r *Run, v *Violation) (bool, string, error) {
 		return true, k + ": " + d, nil
 	}
 	return false, "no violation on replay", nil
+}
+
+
+var genIdentRe = regexp.MustCompile(`^(fn|fi|wp|wc|rp|ep|rr|ee|x|pv|cv|pr|cr|fl|it|q|v|w|u)[0-9]+$`)
+
+// renameIdentifiers replaces the renderer's own identifiers (role + number)
+// outside string literals by names from the theme, consistently.
+func renameIdentifiers(prog string, m map[string]string, theme []string, rng *gen.Rng) string {
+	used := map[string]bool{}
+	for _, v := range m {
+		used[v] = true
+	}
+	var out strings.Builder
+	i := 0
+	for i < len(prog) {
+		c := prog[i]
+		switch {
+		case c == '"':
+			j := i + 1
+			for j < len(prog) && prog[j] != '"' {
+				if prog[j] == '\\' {
+					j++
+				}
+				j++
+			}
+			out.WriteString(prog[i:min(j+1, len(prog))])
+			i = j + 1
+		case c == '`':
+			j := i + 1
+			for j < len(prog) && prog[j] != '`' {
+				j++
+			}
+			out.WriteString(prog[i:min(j+1, len(prog))])
+			i = j + 1
+		case c == '_' || c >= 'a' && c <= 'z' || c >= 'A' && c <= 'Z':
+			j := i
+			for j < len(prog) && (prog[j] == '_' || prog[j] >= 'a' && prog[j] <= 'z' || prog[j] >= 'A' && prog[j] <= 'Z' || prog[j] >= '0' && prog[j] <= '9') {
+				j++
+			}
+			id := prog[i:j]
+			if genIdentRe.MatchString(id) {
+				n, ok := m[id]
+				if !ok {
+					n = id
+					list := []string{}
+					for _, k := range sortedKeys(used) {
+						list = append(list, k)
+					}
+					if d := gen.DeriveName(rng, list); d != "" && !used[d] && rng.Chance(45) && !strings.HasPrefix(d, "_") {
+						n = d
+					} else {
+						for try := 0; try < 6; try++ {
+							cand := theme[rng.Intn(len(theme))]
+							if !used[cand] {
+								n = cand
+								break
+							}
+						}
+					}
+					used[n] = true
+					m[id] = n
+				}
+				id = n
+			}
+			out.WriteString(id)
+			i = j
+		default:
+			out.WriteByte(c)
+			i++
+		}
+	}
+	return out.String()
 }
